@@ -83,6 +83,7 @@ func (c *Cache[T]) Store(fileName string, data T, fi os.FileInfo) {
 }
 
 func (c *Cache[T]) Invalidate(fileName string) {
+	verifPoint("invalidate", fileName)
 	c.items.Add(-1)
 	c.entries.Delete(fileName)
 }
@@ -95,12 +96,14 @@ func (c *Cache[T]) LoadLatest(
 		var zero T
 		return zero, err
 	}
+	verifPoint("checked", fileName)
 	if stale {
 		data, err := loader()
 		if err != nil {
 			var zero T
 			return zero, err
 		}
+		verifPoint("loaded", fileName)
 		c.Store(fileName, data, lastModified)
 		return data, nil
 	}
